@@ -660,7 +660,7 @@ def run_job(job: dict) -> JobResult:
     for cfg in scenarios(job["tier"])[job["lo"]:job["hi"]]:
         found: dict[str, tuple[Ctx, dict, str]] = {}
 
-        def check(ctx: Ctx, obs: dict, cfg: dict = cfg) -> None:
+        def check(ctx: Ctx, obs: dict, cfg: dict = cfg) -> bool:
             res.evaluations += 1
             if res.evaluations % 1000 == 0:
                 gc.collect()  # abandoned loops/tasks are cyclic garbage: keep the workers' memory flat
@@ -678,12 +678,15 @@ def run_job(job: dict) -> JobResult:
                     found[sym] = (ctx, obs, msg)
             if any(ctx.choices):
                 res.nontrivial.add(digest((describe(cfg), obs["log"])))
+            return sym is not None
 
         stats = explore(lambda ctx, cfg=cfg: run_one(ctx, cfg), bound=cfg["bound"], check=check, max_runs=200000)
         res.transitions += stats["points"]
         res.count("scenarios")
         if stats["cap_hit"]:
             res.caps.append("max_runs")
+        if stats.get("diverged_after_violation"):
+            res.caps.append("exploration of a scenario abandoned after a violation (the broken run does not replay deterministically)")
         for sym, (ctx, obs, msg) in found.items():
             fam = f"{cfg['kind']}/{cfg.get('fault') or 'handler'}/{cfg['pos']}/{cfg['exc']}"
             res.violations.append(Violation(
